@@ -3,8 +3,6 @@ package files
 import (
 	"os"
 	"strings"
-
-	"github.com/jmeaster30/vore/libvore/algo"
 )
 
 type PathEntryType int
@@ -50,36 +48,19 @@ func ParsePath(path string) *Path {
 	return &Path{entries}
 }
 
+// pathMatches reports whether the whole of target matches the pattern, in which
+// `*` stands for any run of characters (including none).
 func pathMatches(target string, matches string) bool {
-	if !strings.ContainsRune(matches, '*') {
-		return target == matches
+	if len(matches) == 0 {
+		return len(target) == 0
 	}
-
-	matchParts := algo.Window(algo.SplitKeep(matches, "*"), 2)
-
-	result := true
-	for _, part := range matchParts {
-		if len(part) == 1 {
-			if part[0] != "*" && target != part[0] {
-				result = false
-			}
-			break
-		} else if part[0] == "*" {
-			splitStart := strings.Index(target, part[1])
-			if splitStart == -1 {
-				target = ""
-			} else {
-				target = target[splitStart:]
-			}
-		} else if strings.HasPrefix(target, part[0]) {
-			target = strings.TrimPrefix(target, part[0])
-			// FIXME doesn't account for relative folders ie `./docs/examples`
-		} else {
-			result = false
-			break
+	if matches[0] == '*' {
+		if pathMatches(target, matches[1:]) {
+			return true
 		}
+		return len(target) != 0 && pathMatches(target[1:], matches)
 	}
-	return result
+	return len(target) != 0 && target[0] == matches[0] && pathMatches(target[1:], matches[1:])
 }
 
 func directoryExists(entries []os.DirEntry, name string) bool {
